@@ -96,6 +96,17 @@ pub struct Header {
     pub cpm: Option<u8>,
     /// standard mode: how the header is written
     pub plus: PlusForm,
+    /// standard mode, intra pictures only: the Unrestricted Motion Vector mode bit is set (PTYPE
+    /// bit 10, or OPPTYPE with the UUI field following). An intra picture has no vectors, so the
+    /// decoded picture is unaffected; nothing of it may carry over into pictures whose own header
+    /// states the mode as off.
+    pub umv: bool,
+    /// standard mode, PLUSPTYPE forms: Reference Picture Selection mode in force for this picture.
+    /// A `Full` header switches it on in OPPTYPE (and carries RPSMF); a `Brief` header inherits
+    /// it from the previous picture; while in force every header carries TRPI (written 0: predict
+    /// from the previous picture, as without the mode) and BCI (written "01": no back-channel
+    /// message). The decoded pictures are those of the same stream without the mode.
+    pub rps: bool,
 }
 
 /// Form of a standard-mode header (all optional modes off in every form).
@@ -125,6 +136,8 @@ impl Header {
             freeze_release: false,
             cpm: None,
             plus: PlusForm::Baseline,
+            umv: false,
+            rps: false,
         }
     }
     pub fn standard(ptype: PicType, size: Size, quant: u8) -> Header {
@@ -133,6 +146,13 @@ impl Header {
             version: 0,
             ..Header::sorenson(0, ptype, size, quant)
         }
+    }
+    /// Is the UMV mode bit written into this header? (Only ever for standard intra pictures.)
+    pub fn umv_coded(&self) -> bool {
+        self.umv && self.mode == Mode::Standard && self.ptype == PicType::I && self.plus != PlusForm::Brief
+    }
+    pub fn rps_in_force(&self) -> bool {
+        self.rps && self.mode == Mode::Standard && self.plus != PlusForm::Baseline && !(matches!(self.size, Size::SorensonReserved))
     }
     pub fn is_v1(&self) -> bool {
         self.mode == Mode::Sorenson && self.version == 1
@@ -337,7 +357,8 @@ pub fn encode_header(h: &Header, w: &mut BitWriter) {
                     w.put(fmt, 3);
                     // bit 9: picture coding type, "0" INTRA, "1" INTER
                     w.put_bit(h.ptype != PicType::I);
-                    w.put(0, 4); // bits 10-13: UMV, SAC, AP, PB all off
+                    w.put_bit(h.umv_coded()); // bit 10: UMV
+                    w.put(0, 3); // bits 11-13: SAC, AP, PB off
                     w.put(h.quant as u64, 5);
                     match h.cpm {
                         None => w.put_bit(false),
@@ -353,7 +374,10 @@ pub fn encode_header(h: &Header, w: &mut BitWriter) {
                         w.put(1, 3); // UFEP = 001
                         w.put(fmt, 3); // OPPTYPE source format
                         w.put(0, 1); // custom PCF off
-                        w.put(0, 10); // all optional modes off
+                        w.put_bit(h.umv_coded()); // UMV
+                        w.put(0, 5); // SAC, AP, AIC, DF, SS off
+                        w.put_bit(h.rps); // RPS
+                        w.put(0, 3); // ISD, AIV, MQ off
                         w.put(0b1000, 4);
                     } else {
                         w.put(0, 3); // UFEP = 000
@@ -376,6 +400,21 @@ pub fn encode_header(h: &Header, w: &mut BitWriter) {
                             w.put_bit(true);
                             w.put(ch as u64 / 4, 9);
                         }
+                        if h.umv_coded() {
+                            // UUI: "1" limited range, "01" unlimited
+                            if h.tr & 1 == 1 {
+                                w.put_bit(true);
+                            } else {
+                                w.put(0b01, 2);
+                            }
+                        }
+                        if h.rps {
+                            w.put(4 + (h.tr as u64 >> 1 & 3), 3); // RPSMF 100..111
+                        }
+                    }
+                    if h.rps {
+                        w.put_bit(false); // TRPI: no TRP, predict from the previous picture
+                        w.put(0b01, 2); // BCI: no back-channel message
                     }
                     w.put(h.quant as u64, 5);
                 }
